@@ -94,7 +94,7 @@ def build_hank(
             logger.info("... uncertainty calculations...")
             Nb = N // nb  # number of samples per segment
             T = np.zeros(((p + 1) * q * l * r, nb))  # Square root of SIGMA_H
-            Hvec0 = Hank.reshape(-1, 1)  # vectorialised hankel
+            Hvec0 = Hank.reshape(-1, 1, order="F")  # vectorialised hankel (columns stacked)
             Hcov = np.zeros(((p + 1) * l, q * r))  # Averaged version of the Hankel matrix
 
             for k in range(nb):
@@ -105,7 +105,7 @@ def build_hank(
                 Hcov_k = np.dot(Yp_k, Ym_k.T) * N / Nb
 
                 Hcov += Hcov_k / nb
-                Hcov_vec_k = Hcov_k.reshape(-1, 1)
+                Hcov_vec_k = Hcov_k.reshape(-1, 1, order="F")
                 T[:, k] = (Hcov_vec_k - Hvec0).flatten() / np.sqrt(nb * (nb - 1))
 
             logger.debug("... Hankel and SIGMA_H Done!")
